@@ -33,7 +33,8 @@ LEVEL = {
                "iterator on the exceptional path, and no normal exit skips the cleanup; (R04.2) cleanup loops "
                "cover the complete container; (R04.3) chain/tee/groupby handles close what they own directly in "
                "aclose, started or not; (R04.4) aclose reads only state initialised by __init__; (R04.5) a tee "
-               "child removes its buffer and the last one closes the source.",
+               "child removes its buffer and the last one closes the source; (R04.6) leaving `async with <handle>` "
+               "closes the handle.",
     "not_decided": "that a user iterator's aclose() does what it promises; acquisition (aiter / __aiter__) is "
                    "assumed not to raise; failures inside cleanup itself (an aclose that raises) are outside the "
                    "fault model.",
